@@ -48,7 +48,9 @@ def run_shard(pid, spec, k, seed, tier, scratch_root):
     t0 = time.time()
     try:
         p = subprocess.run(
-            [PY, '-m', 'harness.worker', pid, spec_path, out_path],
+            [PY] + (['-O'] if (spec.get('pyopt') or (
+                spec.get('case') or {}).get('pyopt')) else []) +
+            ['-m', 'harness.worker', pid, spec_path, out_path],
             cwd=cwd, env=e, capture_output=True, text=True,
             timeout=WATCHDOG_S[tier])
     except subprocess.TimeoutExpired:
